@@ -224,7 +224,9 @@ def run(ctx, variants=(("verif", "c04"), ("verif,unsafe", "c04u"))):
     concrete = [d for d in dis if d.get("kind") == "disagreement" and not d["holds_on_impl"]]
     others = [d for d in dis if d not in concrete]
     recorded = 0
-    for d in concrete[:60]:
+    for d in concrete:
+        if recorded >= 60:          # (disagreements that match a known finding do not count against the cap)
+            break
         op = d["op"]
         p = op.split(" ")
         sig = "mal %s %s => %s" % (p[1], p[2], d["impl"])
